@@ -21,6 +21,7 @@ ASSUMPTIONS = ["automata stay inside the encoding's guards (few symbols, arity <
                "flag words with simulation + upward direction are skipped in the sweep (no valid upward preorder can be handed in through the BDD API)",
                "correspondence is sampling: an input shape no generator produces is not covered"]
 FLAVOURS = {"quick": ["plain"], "thorough": ["plain", "asan"]}
+SANITIZER_CAP = 3000
 D9 = "incl T 1 1 3 0 0 0 1 0 0 3 1 2 0 0 T 1 3 4 0 1 0 1 2 0 3 3 2 1 1 3 3 2 2 2"
 CORPUS = [
     D9, D9 + " SWEEP",
@@ -84,10 +85,10 @@ def cases(rng, tier):
     for (a, b) in targeted(rng, 150 if tier == "quick" else 1500):
         k += 1
         cs.append(("incl %s %s%s" % (a.fmt(), b.fmt(), " SWEEP" if k % 25 == 0 else ""), "targeted"))
-    for _ in range(150 if tier == "quick" else 6000):   # coherent defective copies: hypotheses refuted late, alternatives, repeated sub-goals
+    for _ in range(150 if tier == "quick" else 2000):   # coherent defective copies: hypotheses refuted late, alternatives, repeated sub-goals
         a, b = gen.defective_copies_pair(rng)
         cs.append(("incl %s %s" % (a.fmt(), b.fmt()), "defective_copies"))
-    for _ in range(500 if tier == "quick" else 8000):   # a positive answer obtained under a cyclic hypothesis that is refuted later, asked for again
+    for _ in range(500 if tier == "quick" else 5000):   # a positive answer obtained under a cyclic hypothesis that is refuted later, asked for again
         a, b = gen.coinductive_trap_pair(rng)
         cs.append(("incl %s %s" % (a.fmt(), b.fmt()), "coinductive_trap"))
     for _ in range(200 if tier == "quick" else 4000):   # operands = two copies of one loaded automaton (shared transition table), own final states
@@ -96,7 +97,7 @@ def cases(rng, tier):
         fa = [q for q in st if rng.random() < 0.4] or [rng.choice(st)]
         fb = [q for q in st if rng.random() < 0.4] if rng.random() < 0.5 else [q for q in fa if rng.random() < 0.7] + [rng.choice(st)]
         cs.append(("incl %s %s" % (gen.TA(fa, base.rules).fmt(), gen.TA(fb, base.rules).fmt()), "shared_table"))
-    n = 800 if tier == "quick" else 15000
+    n = 800 if tier == "quick" else 8000
     for i in range(n):
         sg = rng.choice([gen.SIGMA, gen.SIGMA, gen.SIGMA3])
         a = gen.rand_ta_sized(rng, 4, 8, sigma=sg); b = gen.rand_ta_sized(rng, 4, 9, sigma=sg)
